@@ -174,7 +174,7 @@ def clock_independence(ctx):
                     return
 
 
-def edit_between_solves(ctx, rng, count):
+def edit_between_solves(ctx, rng, count, clause="not-repeatable"):
     """solve, EDIT the description in place (an action removed from a player state, or a row replaced; the
     list objects stay the same), solve again: the second result is that of the edited game solved from
     scratch in a fresh copy -- nothing may be remembered from the first solve"""
@@ -203,7 +203,7 @@ def edit_between_solves(ctx, rng, count):
                 ctx.count("timeout")
                 break
             if canon_res(again) != canon_res(fresh):
-                ctx.violation("not-repeatable", {"game": before, "edited_state": s, "edited_description": copy.deepcopy(shared), "prune": prune,
+                ctx.violation(clause, {"game": before, "edited_state": s, "edited_description": copy.deepcopy(shared), "prune": prune,
                                                  "sequence": "solve, edit in place, solve"},
                               {"second_solve": list(canon_res(again))[:6], "edited_game_solved_from_scratch": list(canon_res(fresh))[:6]})
                 return
@@ -211,7 +211,7 @@ def edit_between_solves(ctx, rng, count):
             shared["transition_list"][s][:] = before["transition_list"][s]
             back = impl.solve_inplace(shared, prune, want_nodes=False)
             if back["outcome"] != "Timeout" and canon_res(back) != canon_res(first):
-                ctx.violation("not-repeatable", {"game": before, "edited_state": s, "prune": prune,
+                ctx.violation(clause, {"game": before, "edited_state": s, "prune": prune,
                                                  "sequence": "solve, remove transitions in place, solve, put them back in place, solve"},
                               {"third_solve": list(canon_res(back))[:6], "first_solve": list(canon_res(first))[:6]})
                 return
